@@ -22,6 +22,10 @@ for hb in (256, 512):
 OBLIGATIONS.append(ob("c04.f.hmacsha512256", "harness/hmac.c", "hf_512256", ["crypto_auth_hmacsha512256_init", "crypto_auth_hmacsha512256", "crypto_auth_hmacsha512256_final", "crypto_auth_hmacsha512256_verify"],
                       "HMAC-SHA-512-256 = HMAC-SHA-512 truncated to 32 bytes; verify accepts exactly the correct tag", defs=["-DHB=512"], assumes=HASSUME, props=("C04", "C02", "C12")))
 
+OBLIGATIONS.append(ob("c04.f.generic_api", "harness/generic_c04.c", "hf_generic_c04", ["crypto_auth", "crypto_auth_verify", "crypto_shorthash", "crypto_hash", "crypto_kdf_derive_from_key", "crypto_auth_keygen", "crypto_shorthash_keygen", "crypto_kdf_keygen", "size accessors"],
+    "the generic crypto_auth / crypto_shorthash / crypto_hash / crypto_kdf entry points call HMAC-SHA-512-256 / SipHash-2-4 / SHA-512 / the BLAKE2b KDF exactly once with the caller's arguments unchanged (every length, all 64 bits of the subkey id) and return the primitive's verdict",
+    props=("C04",), replayable=True, assumes=["the primitives are logging stubs with an arbitrary verdict here (their own obligations: c04.f.hmacsha512256, c04.f.siphash*, c04.f.kdf_blake2b)"], cbmc=["--unwind", "10", "--unwinding-assertions"]))
+
 PA = ["the product h*r mod 2^130-5 inside poly1305_blocks is not decided (non-linear arithmetic does not discharge on any installed back end): assumed correct"]
 OBLIGATIONS += [
     ob("c04.f.poly1305.finish", "harness/poly1305.c", "hf_finish", ["poly1305_finish (donna64)"],
